@@ -18,8 +18,9 @@ through five stages; every stage is modelled as it is written, cell by cell:
 5. logo: `v[i] * (math.Log(len(alphabet))/math.Log(2) - entropy[i])`; otherwise, with `log`,
    `math.Log(v[i]) / math.Log(2)`.
 
-`make([]float64, a.Length())` with the cached length −1 of an alignment without sequences is a run-time panic
-(`makeslice: len out of range`): outcome `panic`.
+An alignment without sequences (cached length −1) is an error (guard at the top of the function, `fix:` commit;
+before it `make([]float64, a.Length())` was a run-time panic `makeslice: len out of range`).  The outcome type keeps
+the constructor `panic` so that "never a panic" is a statement (`Gv.Props.C14Pssm.pssm_no_panic`).
 -/
 namespace Gv.Model
 open Gv
@@ -99,7 +100,7 @@ def pssmFinal (nf : Byte → α) (log : Bool) (pseudo : α) (norm : Int) (alpha 
 
 /-- `Pssm(log, pseudocount, normalization)` on an alignment of cached length `L` -/
 def pssm (rows : CRows) (L : Int) (alphabet : Nat) (log : Bool) (pseudo : α) (norm : Int) : PssmRes α :=
-  if L < 0 then .panic else
+  if rows.isEmpty || L < 0 then .err else
   let alpha := pssmAlphabet alphabet
   match pssmNormFactor rows alpha pseudo norm with
   | none => .err
